@@ -160,6 +160,16 @@ claim('C11', 'DESIGN.md 4/C11',
       'Tolerance 1e-8 relative (1e-10 at exact points); Koyama / NFJC weights are the models own kernels (structure, limits, bound, '
       'totality judged) and are replayed for N <= 12 (40) only; float conditioning is observed through the comparison, not proved.')
 
+claim('C17', 'DESIGN.md 4/C17',
+      'TLA+ spec Units.tla: the six conversion formulas as terms with the unit factors of each configuration resolved by TLC; TLC '
+      'checks Defined, LinearOrAffine, CelsiusIsKelvinMinus27315, NanometerIsTenTimesAngstrom, the definition identities and '
+      'CallsArePure; the converter machine (Construct(length unit, energy unit); Call(method, argument kind)) replayed on the real '
+      'UnitConverter for several characteristic values: totality, magnitude against the evaluated term with exact SI constants, unit, '
+      'elementwise arrays, converter unchanged',
+      'A finite definition table with no interesting state: exhaustive over 15 configurations x 6 methods x 3 argument kinds at the '
+      'specification level, each executed on the real class.',
+      'Weakest fit of the technique (stateless); characteristic values sampled (2 / 5 sets); tolerance 1e-12.')
+
 ALL = ['C%02d' % i for i in range(1, 19)]
 
 
